@@ -9,11 +9,25 @@ import sys
 import time
 
 VERIF = os.path.dirname(os.path.dirname(os.path.abspath(__file__)))
-MODULES = ["contracts.c04_periods", "contracts.engine", "contracts.c03_requests"]
+MODULES = ["contracts.c04_periods", "contracts.engine", "contracts.c03_requests", "contracts.c06_parameters"]
 
 CAL_THEORY = "calendar (OM/DIM opaque, lemma instances; closed forms = Hinnant days-from-civil), validated against datetime"
 
 PROPS = {
+    "C06": {
+        "theories": ["parameter history view: strictly decreasing (key, value) list; ISO date strings through their order embedding",
+                     CAL_THEORY],
+        "lemmas": [],
+        "validations": ["calendar", "pendulum", "isoorder"],
+        "assumptions": [
+            "history keys are full ISO dates YYYY-MM-DD with 4-digit years, so string order is date order (validated)",
+            "parameter values are opaque; None is represented by a distinguished value; allowed types as in config.ALLOWED_PARAM_TYPES",
+            "update(start, stop) is called with start <= stop",
+        ],
+        "bounded": ["ParameterNodeAtInstant.__init__: member loop unrolled for a group of 3 members (2 parameters, 1 subgroup); values and date symbolic",
+                    "Parameter.__init__: a five-entry document (shuffled dates, one null value, both 'expected' placeholder forms)"],
+        "not_decided": ["ParameterScale._get_at_instant (deferred to the tax-scale contracts)", "YAML loading"],
+    },
     "C03": {
         "theories": [CAL_THEORY, "opaque result arrays VAL(variable, period); sums compared by length and pointwise summand"],
         "lemmas": [],
